@@ -50,7 +50,7 @@ ASSUMPTIONS = ['isolation is judged by deep equality with a snapshot normalised 
                'the disk cache lives on a real temporary directory removed after each run']
 
 STORES = ['new_pickle', 'new_pickle', 'new_copy', 'new_wu', 'cache', 'eager_cache', 'diskcache',
-          'cache_tuple', 'new_tuple', 'new_json']
+          'cache_tuple', 'new_tuple', 'new_json', 'eager_cache_raw']
 PATHS = ['index', 'neg', 'key', 'iter', 'items', 'slice', 'copy', 'prefetch1', 'prefetchw']
 MUTS = ['set', 'del', 'append', 'clear', 'array', 'nested']
 
@@ -147,7 +147,7 @@ def gen(rng, tier, index):
                 ops.append(['read', p, rng.randrange(n), rng.randrange(1 << 20)])
             elif r < 0.85:
                 ops.append(['mutate', rng.choice(MUTS), rng.randrange(0, 4)])
-            elif store in ('new_pickle', 'new_wu'):
+            elif store in ('new_pickle', 'new_wu', 'eager_cache_raw'):
                 ops.append(['mutate_original', rng.choice(MUTS + ['replace', 'grow', 'shrink']),
                             rng.randrange(n)])
             elif store == 'diskcache':
@@ -264,6 +264,12 @@ def run(case):
                     ds = lazy_dataset.new(orig, immutable_warranty=store[4:])
                 if entry != 'new':
                     probes['constructed_through_another_entry_point'] = 1
+            elif store == 'eager_cache_raw':
+                # an eager memory cache taken directly from a raw container dataset
+                # (live objects of the caller, e.g. what from_file(..., None) returns)
+                raw = ldc.DictDataset(orig) if kind == 'dict' else ldc.ListDataset(orig)
+                ds = raw.cache(lazy=False)
+                raw = None
             else:
                 base = lazy_dataset.new(orig)
                 if store in ('cache', 'cache_tuple'):
